@@ -140,6 +140,36 @@ def check_sequences(env, acc):
         if not same:
             acc.violation("using_a_gate_changed_it", {"gate": cls, "how": "added twice", "seed": env.seed, "scenario": "sequence"}, None)
         acc.state("seq-reuse", cls)
+    # gates cascaded on a 3-qubit register: two heralded gates in ascending and in descending order, then a gate
+    # that spans both groups of ancillas
+    for order in ((0, 1), (1, 0)):
+        for last in ("SWAP02", "CCZ", "CCNOT", "CZ12"):
+            for first in ("CZ_Heralded", "CNOT_Heralded"):
+                acc.tick("executions"); acc.tick("transitions", 3)
+                host = lw.Circuit(6)
+                want = np.eye(8, dtype=complex)
+                for q in order:
+                    host.add(getattr(qubit, first)(), 2 * q)
+                    m = rq.controlled_z(3, (q, q + 1)) if first == "CZ_Heralded" else rq.controlled_x(3, (q,), q + 1)
+                    want = m @ want
+                if last == "SWAP02":
+                    host.add(qubit.SWAP((0, 1), (4, 5)), 0); want = rq.swap(3, 0, 2) @ want
+                elif last == "CCZ":
+                    host.add(qubit.CCZ(), 0); want = rq.controlled_z(3, (0, 1, 2)) @ want
+                elif last == "CCNOT":
+                    host.add(qubit.CCNOT(), 0); want = rq.controlled_x(3, (0, 1), 2) @ want
+                else:
+                    host.add(qubit.CZ(), 2); want = rq.controlled_z(3, (1, 2)) @ want
+                cc = {"gate": "%s x2 (order %s) then %s" % (first, order, last), "seed": env.seed, "scenario": "sequence"}
+                try:
+                    A, leak, _ = rq.circuit_gate_matrix(host, 3)
+                    s2, err = rq.compare_up_to_scalar(A, want)
+                except Exception as e:  # noqa: BLE001
+                    acc.violation("gate_constructor_raises", cc, {"error": repr(e)})
+                    continue
+                if err > 1e-8 * max(1.0, math.sqrt(s2)) and err / math.sqrt(max(s2, 1e-300)) > 1e-6:
+                    acc.violation("not_the_named_gate", cc, {"relative_err": err / math.sqrt(max(s2, 1e-300)), "s2": s2})
+                acc.state("seq-register", cc["gate"])
     chains = [(("H", ()), ("Z", ()), ("H", ())), (("Rz", (0.4,)), ("Ry", (1.1,)), ("Rz", (0.4,))), (("S", ()), ("H", ()), ("S", ())),
               (("H", ()), ("S", ()), ("T", ())), (("Rx", (0.7,)), ("Rz", (1.1,)), ("H", ())), (("X", ()), ("S", ()), ("SX", ()))]
     for chain in chains:
